@@ -105,6 +105,17 @@ Proof.
 Qed.
 Print Assumptions C10_i16_reserialise_refuted.
 
+(* refuted (structs outside the property's own list): write_list has no list<bool> - a Python bool is an int, so
+   ColumnIndex.null_pages = [True] denotes list<i32> [1]; the emitted bytes do not pass the IDL check, whatever
+   the markers (here: IDL-consistent ones) *)
+Theorem C10_list_bool_refuted : exists v t,
+  v = PDict false (Some [4%Z]) [(1%Z, PList [PBool true]); (2%Z, PList [PBytes [97]]); (3%Z, PList [PBytes [98]]); (4%Z, PInt 0)]
+  /\ t_top v = Some t /\ conforms pinned lenient (FStruct "ColumnIndex"%string) t = false.
+Proof.
+  eexists. eexists. split; [reflexivity|]. split; [vm_compute; reflexivity|]. vm_compute. reflexivity.
+Qed.
+Print Assumptions C10_list_bool_refuted.
+
 (* refuted, cencoding.pyx `for i in range(1, 14)`: field id 14 (ColumnMetaData.bloom_filter_offset,
    LogicalType.UUID) is dropped; the parsed-back object is not equal to the original *)
 Theorem C10_field14_refuted : exists b d',
